@@ -273,13 +273,17 @@ def pick_entry(rng: SimRng, pred=lambda e: True, heavy_w=0.25):
     return rng.choices(keys, weights=weights)[0]
 
 
-def gen_pool_scenario(rng: SimRng, key, mode, max_n=24):
+def gen_pool_scenario(rng: SimRng, key, mode, max_n=24, big=False):
     g = rng.fork("workload")
     e = R.ENTRIES[key]
     heavy = e["flags"].get("heavy")
     n = g.pick([2, 3, 4, 6, 8, 12, 16, max_n]) if not heavy else g.pick([3, 4, 6, 8, 10])
     d = g.pick([1, 2, 2, 3])
     kind = g.pick(POOL_KINDS)
+    if big and not heavy:
+        # a long labelling history on a large, dense pool (counts and frequency sums far beyond the small pools)
+        n = g.pick([180, 230])
+        kind = "dense"
     classes = [0, 1, 2] if (e["task"] == "clf" and not e["flags"].get("binary") and g.chance(0.3)) else [0, 1]
     X, yt = R.make_pool(g, n, d, e["task"], kind, n_classes=len(classes))
     # initial labelling: from zero labels to a single unlabeled sample
@@ -303,8 +307,14 @@ def gen_pool_scenario(rng: SimRng, key, mode, max_n=24):
     per = [float(v) for v in per]
     for i in lab_idx:
         y0[i] = float(yt[i]) if okind != "constant" else per[i]
+    if big and not heavy:
+        n_lab = int(0.6 * n)
+        lab_idx = sorted(g.sample(range(n), n_lab))
+        y0 = [None] * n
+        for i in lab_idx:
+            y0[i] = float(yt[i]) if okind != "constant" else per[i]
     u = n - n_lab
-    bs = g.pick([1, 1, 2, 3, 5, u, u + 2])
+    bs = g.pick([1, 1, 2, 3, 5, u, u + 2]) if not (big and not heavy) else g.pick([6, 10, 25])
     sc = {
         "engine": "poolsim",
         "mode": mode,
@@ -434,7 +444,8 @@ class C14Check(PoolCheckBase):
 
     def generate(self, rng: SimRng):
         key = pick_entry(rng.fork("entry"), pred=lambda e: not e["flags"].get("no14"))
-        sc = gen_pool_scenario(rng, key, "C14", max_n=40 if self.tier == "thorough" else 24)
+        big = self.tier == "thorough" and rng.fork("big").chance(0.01)
+        sc = gen_pool_scenario(rng, key, "C14", max_n=40 if self.tier == "thorough" else 24, big=big)
         sc["prefit"] = False  # the *standard* loop: default fit flags (fit_*=False is exercised by C05)
         if R.ENTRIES[key]["flags"].get("batch1_14"):
             sc["batch_size"] = 1
